@@ -6,7 +6,8 @@
   patching phase, `commit` applied to the tree holding exactly the old build succeeds and yields a tree that
   holds exactly the new build, whatever the two visiting orders are.  It is FALSE without `NoKindClash`
   (finding F8: a path whose kind changes between builds makes commit fail; four shapes are recorded as known
-  findings), so what is proved is `commit_correct_partial`, which adds that hypothesis.
+  findings — the fourth has been repaired since, finding F27, see Props/C02Kinds.lean), so what is proved is
+  `commit_correct_partial`, which adds that hypothesis.
 
   Status: all three stages (`commit_correct_notransp_nosym_partial`, `commit_correct_notransp_partial`,
   `commit_correct_partial`) are proved, with the hypotheses `BuildWF`, `NoKindClash`, `WorkOK`, the two orders
